@@ -351,6 +351,12 @@ func knownClass(e *eco, f failure, req string) string {
 			return "PyPIGreaterThanPostLost"
 		}
 	case "maven":
+		// The same root cause seen through matching: a missing lower bound is
+		// taken to be "0", so a version that sorts below 0 (0-alpha-1,
+		// 0.0.0-SNAPSHOT) is outside (,X] although Maven's range contains it.
+		if f.law == "match" && f.expected == "true" && mavenEmptyLowerBound.MatchString(req) && semver.Maven.Compare(f.v, "0") < 0 && kf.Open("C03", "MavenOpenLowerBoundBelowZero") {
+			return "MavenOpenLowerBoundBelowZero"
+		}
 		if f.law == "rejected-nonempty" && mavenOpenLowerBelowZero.MatchString(req) && strings.Contains(f.observed, "max less than min") && kf.Open("C03", "MavenOpenLowerBoundBelowZero") {
 			return "MavenOpenLowerBoundBelowZero"
 		}
@@ -435,6 +441,8 @@ func cargoHasPartialComparator(req string) bool {
 	}
 	return false
 }
+
+var mavenEmptyLowerBound = regexp.MustCompile(`[\[(]\s*,`)
 
 var mavenOpenLowerBelowZero = regexp.MustCompile(`\(,0(\.0)*-(?i:alpha|beta|milestone|rc|cr|snapshot|a[0-9]|b[0-9]|m[0-9])`)
 
